@@ -55,6 +55,10 @@ THEOREMS = [
     "Verif.C06.pySliceOpt_pySliceOpt",
     "Verif.C06.slice_line_time",
     "Verif.C06.down_entry_timestamps",
+    "Verif.C06.selecting_program_shows_window",
+    "Verif.C06.scan_program_shows_windows",
+    "Verif.C06.selecting_program_pixel_time",
+    "Verif.C06.scan_program_pixel_time",
 ]
 RULE = (
     "kymographs and scans built from generated info waves (P<=5 pixels, <=6 lines/frames, k<=3 samples per pixel, "
